@@ -797,7 +797,9 @@ def run_steal_one(b, prog, size, num, den, seed, w, timeout=25):
 
 def run_steal_progs(ctx, b, quick):
     t0 = time.time()
-    progs = [("fib", 21), ("fanout", 12000), ("yield", 12000)]
+    # many runnable threads on one worker: stay well inside the run-queue capacity of the tree under check
+    big = min(12000, max(64, vlib.run_queue_capacity() // 8))
+    progs = [("fib", 21), ("fanout", big), ("yield", big)]
     declines = [(0, 1), (1, 2), (9, 10)]
     combos = []
     for w in (1, 2, 3, 4):
